@@ -1,6 +1,7 @@
 import SqlModel.Default
 import SqlModel.RegexCost
 import SqlProofs.RegexCost
+import SqlProofs.StrTemplate
 /-!
 # C16 — no lexical rule can backtrack exponentially
 
@@ -12,7 +13,7 @@ state (the source of exponential blow-up).  `cert_sound` (SqlProofs/RegexCost.le
 namespace Sql.C16
 
 /-- table obligation: every rule of the regenerated table either has a polynomial certificate or is one of the quoted-string
-rules of shape `q(qq|\q|[^q])*q` (clause still open, see `PARTIAL` in the evidence; covered by the timing harness).
+rules of shape `q(qq|\q|[^q])*q`, for which `string_rules_poly` below gives a linear bound by a separate argument.
 Re-introducing an overlapping alternative under a star (the historical `(\\\\|\\'|''|[^'])*` bug) falsifies this. -/
 theorem rules_poly_or_template :
     (defaultCfg.rules.all fun r => (cert r.re).isSome || isStrTemplate r.re) = true := by decide +kernel
@@ -24,6 +25,42 @@ theorem rule_work_poly (s : Array Cp) (r : Rule) (c : Cert) (h : cert r.re = som
     work (defaultCfg.env s) r.re ⟨p, []⟩ ≤ c.work.c * (s.size + 1) ^ c.work.d := by
   have := cert_sound (defaultCfg.env s) r.re c h ⟨p, []⟩
   exact ⟨this.1, this.2.1⟩
+
+/-- **the quoted-string rules are linear.** For every rule of the table that has the shape `q(qq|\q|[^q])*q` (the `'…'` and `"…"` rules,
+which get no certificate because after a backslash both `\q` and `[^q]` apply), every input and every start position: at most `|s| + 1`
+derivations and a backtracking search tree of at most `12·(|s| + 1) + 4` nodes.  (After a backslash followed by a run of quotes only one
+of the two readings can get past the run — parity — so the alternatives never multiply; `SqlProofs/StrTemplate.lean`.)
+Together with `rules_poly_or_template` and `rule_work_poly`, every rule of the table has a polynomial bound. -/
+theorem string_rules_poly (s : Array Cp) (r : Rule) (_hr : r ∈ defaultCfg.rules) (h : isStrTemplate r.re = true) (p : Nat) :
+    (derivs (defaultCfg.env s) r.re ⟨p, []⟩).length ≤ s.size + 1 ∧
+    work (defaultCfg.env s) r.re ⟨p, []⟩ ≤ 12 * (s.size + 1) + 4 :=
+  isStrTemplate_linear (defaultCfg.env s) r.re h ⟨p, []⟩
+
+/-- the template clause is not vacuous: exactly the two quoted-string rules of the generated table have the shape -/
+theorem string_rules_are_25_26 :
+    (defaultCfg.rules.zipIdx.filter fun x => isStrTemplate x.1.re).map (·.2) = [25, 26] := by decide +kernel
+
+/-- every rule of the table has a polynomial bound on its number of derivations and on its search tree, for every input and position -/
+theorem every_rule_poly (s : Array Cp) (r : Rule) (hr : r ∈ defaultCfg.rules) (p : Nat) :
+    ∃ c d : Nat, (derivs (defaultCfg.env s) r.re ⟨p, []⟩).length ≤ c * (s.size + 1) ^ d ∧
+      work (defaultCfg.env s) r.re ⟨p, []⟩ ≤ c * (s.size + 1) ^ d := by
+  have hall := rules_poly_or_template
+  simp only [List.all_eq_true, Bool.or_eq_true] at hall
+  have hN : 1 ≤ s.size + 1 := by omega
+  rcases hall r hr with hc | ht
+  · obtain ⟨c, hc⟩ := Option.isSome_iff_exists.mp hc
+    obtain ⟨h1, h2⟩ := rule_work_poly s r c hc p
+    refine ⟨c.cnt.c + c.work.c, max c.cnt.d c.work.d, ?_, ?_⟩
+    · calc _ ≤ c.cnt.c * (s.size + 1) ^ c.cnt.d := h1
+        _ ≤ c.cnt.c * (s.size + 1) ^ max c.cnt.d c.work.d :=
+          Nat.mul_le_mul_left _ (Nat.pow_le_pow_right hN (Nat.le_max_left _ _))
+        _ ≤ _ := Nat.mul_le_mul_right _ (Nat.le_add_right _ _)
+    · calc _ ≤ c.work.c * (s.size + 1) ^ c.work.d := h2
+        _ ≤ c.work.c * (s.size + 1) ^ max c.cnt.d c.work.d :=
+          Nat.mul_le_mul_left _ (Nat.pow_le_pow_right hN (Nat.le_max_right _ _))
+        _ ≤ _ := Nat.mul_le_mul_right _ (Nat.le_add_left _ _)
+  · obtain ⟨h1, h2⟩ := string_rules_poly s r hr ht p
+    refine ⟨16, 1, ?_, ?_⟩ <;> simp only [Nat.pow_one] <;> omega
 
 /-- the certificate is not vacuous and not trivially permissive: `(a|a)*`, `(a*)*` and the historical overlapping string body get none;
 `(``|[^`])*` (disjoint first sets) gets one -/
